@@ -197,6 +197,8 @@ def run_shard(spec):
                 cfg["wrapper"] = "mosek"    # MOSEK back-end through the stand-in: the recorded Task calls are compared too
         elif rng.random() < 0.3:
             cfg.pop("solver")           # library default (SCS here): the default must not depend on history either
+        if rng.random() < 0.25 and "solver" in cfg:
+            cfg["dimred"] = rng.choice(["logdet2", "logdet3", "trace"])    # heuristic weights are part of the solver input
         fresh, err = fresh_dump(B, cfg)
         if fresh is None:
             counters["fresh_failed"] = counters.get("fresh_failed", 0) + 1
@@ -215,6 +217,36 @@ def run_shard(spec):
         kinds = []
         for _ in range(hl if hl is not None else rng.randint(1, 6)):
             kinds.append(history_item(rng, counters))
+        if rng.random() < 0.5:
+            # B's own program abandoned half-way by an injected exception (same sizes as B), then B itself
+            from pv.failpoints import Failpoint, targets
+            from pv.monitors import InjectedFault
+            name = "expression_to_matrices" if rng.random() < 0.5 else rng.choice(sorted(targets()))
+            buf = io.StringIO()
+            # dry run counting the line events of the target while B is built and solved, then abandon B at a
+            # uniformly drawn one of them
+            n_events = 0
+            try:
+                with contextlib.redirect_stdout(buf), Failpoint(name, 10 ** 9) as fp0:
+                    mB = gen.Machine().run(B["ops"])
+                    mB.do_solve(driver.solve_kwargs(cfg))
+                n_events = fp0.hits
+            except Exception:
+                pass
+            try:
+                with contextlib.redirect_stdout(buf), Failpoint(name, rng.randint(1, max(1, n_events))) as fp:
+                    mB = gen.Machine().run(B["ops"])
+                    mB.do_solve(driver.solve_kwargs(cfg))
+            except InjectedFault:
+                pass
+            except Exception:
+                pass
+            if fp.fired:
+                counters["failpoints_fired"] = counters.get("failpoints_fired", 0) + 1
+            kinds.append("B_abandoned_at:" + name)
+            counters["B_abandoned:%s:%s" % (name, "fired" if fp.fired else "not_reached")] = \
+                counters.get("B_abandoned:%s:%s" % (name, "fired" if fp.fired else "not_reached"), 0) + 1
+            counters["history_items"] = counters.get("history_items", 0) + 1
         cfg_h = dict(cfg)
         cfg_h["verbose"] = rng.choice([0, 1, 2]) if "solver" in cfg else rng.choice([0, 1])
         try:
